@@ -87,9 +87,11 @@ class IncludeNode(Node):
 
         character_count = 0
 
+        # The bound value is an argument too. It does not see the other arguments.
+        val = self.var.evaluate(context) if self.var else None
+
         with context.extend(namespace, template=template):
             if self.var:
-                val = self.var.evaluate(context)
                 key = self.alias or template.name.split(".")[0]
 
                 if isinstance(val, Sequence) and not isinstance(val, str):
@@ -132,9 +134,10 @@ class IncludeNode(Node):
 
         character_count = 0
 
+        val = await self.var.evaluate_async(context) if self.var else None
+
         with context.extend(namespace, template=template):
             if self.var:
-                val = await self.var.evaluate_async(context)
                 key = self.alias or template.name.split(".")[0]
 
                 if isinstance(val, Sequence) and not isinstance(val, str):
